@@ -194,6 +194,13 @@ func verifExit(code int) { hook.Exit(code) }
 					} else if sel.Sel.Name == "DialTimeout" && id.Name == "redigo" && len(call.Args) == 5 {
 						call.Fun = ast.NewIdent("verifRedigoDial")
 						n++
+					} else if sel.Sel.Name == "DialWithDialer" && id.Name == "tls" && len(call.Args) == 4 {
+						// tls.DialWithDialer(d, network, addr, cfg): a real TLS client over the hooked connection
+						call.Fun = ast.NewIdent("verifTLSDialWithDialer")
+						n++
+					} else if sel.Sel.Name == "Dial" && id.Name == "tls" && len(call.Args) == 3 {
+						call.Fun = ast.NewIdent("verifTLSDial")
+						n++
 					}
 				}
 			}
@@ -204,6 +211,7 @@ func verifExit(code int) { hook.Exit(code) }
 	ov.Replace[filepath.Join(*repo, "redis-shake/common/zz_verif_dial.go")] = writeGen(gen, "zz_verif_dial.go", `package utils
 
 import (
+	"crypto/tls"
 	"net"
 	"time"
 
@@ -216,6 +224,38 @@ func verifDial(network, addr string) (net.Conn, error) {
 		return c, err
 	}
 	return net.Dial(network, addr)
+}
+
+// verifTLSDial keeps the result shape of tls.Dial / tls.DialWithDialer: a refused dial or a failed
+// handshake returns a nil *tls.Conn together with the error.
+func verifTLSDial(network, addr string, cfg *tls.Config) (*tls.Conn, error) {
+	nc, err, ok := hook.Dial(network, addr)
+	if !ok {
+		return tls.Dial(network, addr, cfg)
+	}
+	if err != nil {
+		return nil, err
+	}
+	cc := &tls.Config{}
+	if cfg != nil {
+		cc = cfg.Clone()
+	}
+	if cc.ServerName == "" {
+		if host, _, e := net.SplitHostPort(addr); e == nil {
+			cc.ServerName = host
+		}
+	}
+	tc := tls.Client(nc, cc)
+	if err := tc.Handshake(); err != nil {
+		nc.Close()
+		return nil, err
+	}
+	return tc, nil
+}
+
+func verifTLSDialWithDialer(d *net.Dialer, network, addr string, cfg *tls.Config) (*tls.Conn, error) {
+	_ = d // the dialer's options matter to the operating system only
+	return verifTLSDial(network, addr, cfg)
 }
 
 func verifRedigoDial(network, addr string, a, b, c time.Duration) (redigo.Conn, error) {
